@@ -328,6 +328,108 @@ class ImpStub(om.ImplicitComponent):
             d_residuals[o['name']] = np.linalg.solve(D.T, d_outputs[o['name']].ravel()).reshape(o['shape'])
 
 
+class Imp2Stub(om.ImplicitComponent):
+    """Two states: R1 = D1 u1 - sum(A x) - b1 ; R2 = D2 u2 - C u1 - sum(A x) - b2.  Only the blocks that exist are
+    declared; exact block-triangular solve_nonlinear / solve_linear."""
+
+    def initialize(self):
+        self.options.declare('spec', recordable=False)
+        self.options.declare('rt', recordable=False)
+
+    def setup(self):
+        s = self.options['spec']
+        for i in s['ins']:
+            kw = {}
+            if i.get('val') is not None:
+                kw['val'] = _arr(i['val'], i['shape'])
+            self.add_input(i['name'], shape=tuple(i['shape']), units=i['units'], **kw)
+        for o in s['outs']:
+            self.add_output(o['name'], shape=tuple(o['shape']), units=o['units'], **_out_kwargs(o))
+        self._decl = {}
+        o1, o2 = s['outs']
+        for o in s['outs']:
+            key = o['name'] + '|' + o['name']
+            self._decl[key] = _declare(self, o['name'], o['name'], s['D'][o['name']], s['fmt'][key], True)
+            for i in s['ins']:
+                key = o['name'] + '|' + i['name']
+                if key in s.get('undeclared', ()):
+                    continue
+                self._decl[key] = _declare(self, o['name'], i['name'], -np.array(s['A'][o['name']][i['name']]),
+                                           s['fmt'][key], True)
+        key = o2['name'] + '|' + o1['name']
+        self._decl[key] = _declare(self, o2['name'], o1['name'], -np.array(s['C']), s['fmt'][key], True)
+
+    def _block(self, of, wrt):
+        s = self.options['spec']
+        if of == wrt:
+            return np.array(s['D'][of])
+        if wrt == s['outs'][0]['name']:
+            return -np.array(s['C'])
+        return -np.array(s['A'][of][wrt])
+
+    def _rhs(self, j, inputs, outputs, dtype):
+        s = self.options['spec']
+        o = s['outs'][j]
+        y = np.array(s['b'][o['name']], dtype=dtype)
+        for i in s['ins']:
+            if o['name'] + '|' + i['name'] not in s.get('undeclared', ()):
+                y = y + np.array(s['A'][o['name']][i['name']]) @ inputs[i['name']].ravel()
+        if j == 1:
+            y = y + np.array(s['C']) @ outputs[s['outs'][0]['name']].ravel()
+        return y
+
+    def apply_nonlinear(self, inputs, outputs, residuals):
+        s = self.options['spec']
+        rt = self.options['rt']
+        k = rt.hit(s['name'], 'apply_nonlinear')
+        if rt.on_eval is not None:
+            rt.on_eval(s['name'], 'apply_nonlinear', inputs)
+        for j, o in enumerate(s['outs']):
+            u = outputs[o['name']].ravel()
+            r = np.array(s['D'][o['name']]) @ u - self._rhs(j, inputs, outputs, u.dtype)
+            if k == 'nan':
+                r = r * np.nan
+            residuals[o['name']] = r.reshape(o['shape'])
+
+    def solve_nonlinear(self, inputs, outputs):
+        s = self.options['spec']
+        rt = self.options['rt']
+        k = rt.hit(s['name'], 'solve_nonlinear')
+        if rt.on_eval is not None:
+            rt.on_eval(s['name'], 'solve_nonlinear', inputs)
+        for j, o in enumerate(s['outs']):
+            dt = outputs[o['name']].dtype
+            u = np.linalg.solve(np.array(s['D'][o['name']], dtype=dt), self._rhs(j, inputs, outputs, dt))
+            if k == 'nan':
+                u = u * np.nan
+            outputs[o['name']] = u.reshape(o['shape'])
+
+    def linearize(self, inputs, outputs, J):
+        s = self.options['spec']
+        rt = self.options['rt']
+        rt.hit(s['name'], 'linearize')
+        for key, (kind, r, c) in self._decl.items():
+            if s['fmt'][key] in ('dense_cp', 'coo_cp'):
+                of, wrt = key.split('|')
+                A = self._block(of, wrt)
+                J[of, wrt] = A if kind == 'dense' else A[r, c]
+
+    def solve_linear(self, d_outputs, d_residuals, mode):
+        s = self.options['spec']
+        o1, o2 = s['outs']
+        D1, D2, C = np.array(s['D'][o1['name']]), np.array(s['D'][o2['name']]), np.array(s['C'])
+        if mode == 'fwd':
+            du1 = np.linalg.solve(D1, d_residuals[o1['name']].ravel())
+            du2 = np.linalg.solve(D2, d_residuals[o2['name']].ravel() + C @ du1)
+            d_outputs[o1['name']] = du1.reshape(o1['shape'])
+            d_outputs[o2['name']] = du2.reshape(o2['shape'])
+        else:
+            dr2 = np.linalg.solve(D2.T, d_outputs[o2['name']].ravel())
+            dr1 = np.linalg.solve(D1.T, d_outputs[o1['name']].ravel() + C.T @ dr2)
+            d_residuals[o1['name']] = dr1.reshape(o1['shape'])
+            d_residuals[o2['name']] = dr2.reshape(o2['shape'])
+
+
 # ----------------------------------------------------------------------------- naming
 def comp_by_name(world):
     return {c['name']: c for c in world['comps']}
@@ -502,6 +604,8 @@ def build(world, rt, name='w', tol=None, reorder=False, problem_kwargs=None):
                         comp.add_discrete_output(d['name'], val=d['val'])
                 elif c['kind'] == 'imp':
                     comp = _cls(ImpStub, world, c)(spec=c, rt=rt)
+                elif c['kind'] == 'imp2':
+                    comp = _cls(Imp2Stub, world, c)(spec=c, rt=rt)
                 elif c.get('mf'):
                     comp = _cls(AffStubMF, world, c)(spec=c, rt=rt)
                 else:
